@@ -253,6 +253,7 @@ def variants(root):
     out = [
         V('subgraph: eig instead of eigh', 'break', C, 'vals, vecs = linalg.eigh(CIJ)', 'vals, vecs = linalg.eig(CIJ)', 'S.spectral', 'subgraph_centrality', scope='def subgraph_centrality('),
         V('subgraph: vecs not squared', 'break', C, 'np.dot(vecs * vecs, np.exp(vals))', 'np.dot(vecs, np.exp(vals))', 'S.subgraph-formula', 'subgraph_centrality'),
+        V('neutral: pagerank zero degrees by logical_not', 'neutral', C, 'deg[deg == 0] = 1', 'deg[np.logical_not(deg)] = 1', scope='def pagerank_centrality('),
         V('eigenvector: argmin', 'break', C, 'i = np.argmax(vals)', 'i = np.argmin(vals)', 'S.leading', 'eigenvector_centrality_und'),
         V('eigenvector: sign kept', 'break', C, 'return np.abs(vecs[:, i])', 'return vecs[:, i]', 'S.leading', 'eigenvector_centrality_und'),
         V('eigenvector: row instead of column', 'break', C, 'return np.abs(vecs[:, i])', 'return np.abs(vecs[i, :])', 'S.leading', 'eigenvector_centrality_und'),
